@@ -221,7 +221,8 @@ func runC16(c *CaseCtx) {
 	}
 	files := run.Files()
 	cr := NewCrashRec(c, run.Dir)
-	cr.PushState(obsModel(run.M, u))
+	cr.PushModel(run.M, u)
+	cr.ContinueMax = tier(c.Tier, 8, 20)
 	cr.SetStep(0, false, "merge")
 	cr.Mon.Install()
 	err, p := mergeNoPanic(run)
